@@ -205,17 +205,20 @@ async def _scenario(seed: int) -> dict[str, Any]:
     return {"script": script, "events": traces.uniform(events, EVD), "meta": f"accept loop seed={seed} accept script={script} set-ups={setups[:script.count('ok')]} listener closed at {close_at} ms"}
 
 
+def _run_one(seed: int) -> dict[str, Any]:
+    try:
+        return vloop.run(lambda: _scenario(seed), spin_limit=5000)  # type: ignore[no-any-return]
+    except vloop.VirtualDeadlock as exc:
+        return {"script": [], "events": [dict(EVD, ev="deadlock")], "meta": f"accept loop seed={seed} VirtualDeadlock {exc}"}
+
+
 def run(chk: Check) -> None:
     quick = chk.tier == "quick"
     if not model(chk):
         return
-    rec: list[dict[str, Any]] = []
-    for i in range(300 if quick else 4000):
-        seed = chk.seed * 30011 + i
-        try:
-            rec.append(vloop.run(lambda: _scenario(seed), spin_limit=5000))
-        except vloop.VirtualDeadlock as exc:
-            rec.append({"script": [], "events": [dict(EVD, ev="deadlock")], "meta": f"accept loop seed={seed} VirtualDeadlock {exc}"})
+    from ..common import pmap
+
+    rec: list[dict[str, Any]] = pmap(_run_one, [chk.seed * 30011 + i for i in range(300 if quick else 10000)])
     res = traces.validate("AcceptLoopTrace", [{"script": t["script"], "events": t["events"]} for t in rec], cfg_text=TRACE_CFG, parallel=4, chunk=400)
     chk.traces += len(rec)
     chk.states += res.tlc.distinct
